@@ -106,7 +106,36 @@ def _real_poly1305(r, s, msg=b""):
     return Poly1305_MAC(r, s, msg).digest()
 
 
-REAL_UFS = dict(CHACHA20_BLOCK=_real_chacha_block, HCHACHA20=_real_hchacha, POLY1305=_real_poly1305)
+_KRC = [0x0000000000000001, 0x0000000000008082, 0x800000000000808A, 0x8000000080008000, 0x000000000000808B, 0x0000000080000001,
+        0x8000000080008081, 0x8000000000008009, 0x000000000000008A, 0x0000000000000088, 0x0000000080008009, 0x000000008000000A,
+        0x000000008000808B, 0x800000000000008B, 0x8000000000008089, 0x8000000000008003, 0x8000000000008002, 0x8000000000000080,
+        0x000000000000800A, 0x800000008000000A, 0x8000000080008081, 0x8000000000008080, 0x0000000080000001, 0x8000000080008008]
+_KROT = [[0, 36, 3, 41, 18], [1, 44, 10, 45, 2], [62, 6, 43, 15, 61], [28, 55, 25, 21, 56], [27, 20, 39, 8, 14]]
+
+
+def keccak_f1600(state, rounds=24):
+    """FIPS 202 s3 Keccak-p[1600, rounds] on a 200-byte state (pure Python reference)"""
+    M64 = (1 << 64) - 1
+    a = [[int.from_bytes(state[8 * (x + 5 * y):8 * (x + 5 * y) + 8], 'little') for y in range(5)] for x in range(5)]
+
+    def rol(v, n):
+        n %= 64
+        return ((v << n) | (v >> (64 - n))) & M64 if n else v
+    for rc in _KRC[24 - rounds:]:
+        c = [a[x][0] ^ a[x][1] ^ a[x][2] ^ a[x][3] ^ a[x][4] for x in range(5)]
+        d = [c[(x - 1) % 5] ^ rol(c[(x + 1) % 5], 1) for x in range(5)]
+        a = [[a[x][y] ^ d[x] for y in range(5)] for x in range(5)]
+        b = [[0] * 5 for _ in range(5)]
+        for x in range(5):
+            for y in range(5):
+                b[y][(2 * x + 3 * y) % 5] = rol(a[x][y], _KROT[x][y])
+        a = [[b[x][y] ^ ((~b[(x + 1) % 5][y]) & b[(x + 2) % 5][y]) for y in range(5)] for x in range(5)]
+        a[0][0] ^= rc
+    return b"".join(a[x][y].to_bytes(8, 'little') for y in range(5) for x in range(5))
+
+
+REAL_UFS = dict(CHACHA20_BLOCK=_real_chacha_block, HCHACHA20=_real_hchacha, POLY1305=_real_poly1305,
+                KECCAK_F1600_r24=lambda st: keccak_f1600(bytes(st), 24), KECCAK_F1600_r12=lambda st: keccak_f1600(bytes(st), 12))
 
 
 class SymPrims(object):
